@@ -290,15 +290,15 @@ theorem step_nonrewrite {s : State} (inv : Inv s) (op : Op) (wf : Op.wf s op)
     | some seg =>
       have ok := inv.2.1 seg ha
       simp only [step, ha]
-      by_cases c0 : seg.cur % n = 0
+      by_cases c0 : (seg.base + seg.buf.length) % n = 0
       · simp only [c0, if_true]; exact ⟨by simp, inv, by intros; first | rfl | trivial⟩
       · simp only [c0, if_false]
         have hr : seg.remaining = some (seg.maxLen - seg.buf.length) := by
           unfold Active.remaining; rw [if_pos ok.1]
         rw [hr]; simp only
-        by_cases c1 : n - seg.cur % n ≤ seg.maxLen - seg.buf.length
+        by_cases c1 : n - (seg.base + seg.buf.length) % n ≤ seg.maxLen - seg.buf.length
         · simp only [c1, if_true]
-          rcases write_spec ok (List.replicate (n - seg.cur % n) 0xBE) with ⟨f1, f2⟩ | ⟨f1, f2⟩
+          rcases write_spec ok (List.replicate (n - (seg.base + seg.buf.length) % n) 0xBE) with ⟨f1, f2⟩ | ⟨f1, f2⟩
           · rw [f2]
             obtain ⟨g1, g2, _, _⟩ := grow_spec inv ha _ f1 [] (fun p hp => by simp at hp)
             exact ⟨by simp, g1, g2⟩
